@@ -881,7 +881,7 @@ def project(term, keep):
     txt = "\n".join(out)
     # repair separators: every observation line but the last ends with ';'
     lines = [l for l in txt.split("\n")]
-    body = [i for i, l in enumerate(lines) if l.strip().startswith("(Y")]
+    body = [i for i, l in enumerate(lines) if l.strip().startswith("(Y")]  # YX, YCrash, YTranslate, YIter
     for j, i in enumerate(body):
         l = lines[i].rstrip()
         l = l[:-1] if l.endswith(";") else l
@@ -1110,8 +1110,9 @@ def run_check(prop, tier, seed, replay, t0):
         return of is not None
     bad_oracle = [(p, v) for p, v in results.items() if v[2] is not None]
     bad_corr = [(p, v) for p, v in results.items() if v[2] is None and v[3] is not None]
-    for p, (t, recs, ofail, mm) in bad_oracle[:3]:
-        small = shrink(t, fails_oracle) if spec.oracle else t
+    bad_oracle.sort(key=lambda x: len(x[1][0]))
+    for bi, (p, (t, recs, ofail, mm)) in enumerate(bad_oracle[:3]):
+        small = shrink(t, fails_oracle, budget=50) if (spec.oracle and bi == 0) else t      # only the shortest failing history is minimised
         rp = C.save_replay(prop, "hist-%s.hist" % hashlib.sha1(small.encode()).hexdigest()[:10],
                            "# property %s fails on the implementation: op %d: %s\n# replay: cd /verif && ./check %s --replay <this file>\n%s" % (prop, ofail[0], ofail[1], prop, small))
         violations.append(("history op %d: %s" % ofail, rp, True))
